@@ -248,6 +248,7 @@ type lintTarget struct {
 //     FilterDelete of the identical type;
 //   - multi-value assignment from a call with named results:
 //     filterDelete, filterPartial := f() for f() (filterPartial, filterDelete *T).
+//
 // Renames cannot trigger it; only a definite swap can.
 func crossWiring(t lintTarget, report func(key, pos, detail string)) int {
 	n := 0
